@@ -107,3 +107,18 @@ Theorem C10_temp_name_not_an_input :
     temp_of (normalize_out name) <> inp.
 Proof. exact temp_not_an_input. Qed.
 Print Assumptions C10_temp_name_not_an_input.
+
+(* Restart: whatever a fault of either kind at any position leaves behind is
+   a legal starting state for the next run of any task (with the stale-file
+   flags read off that state): outputs absent or complete, inputs intact,
+   leftovers only at temporary names - so the theorems above apply again to
+   the next run (for split the next run additionally needs the temporary
+   names to be absent, see ASSUMPTIONS in harness/c10.py). *)
+Theorem C10_state_after_fault_is_restartable :
+  forall (c : cfg) (n : nat) (t : list op) (s0 : fs) (k : nat) (f : fault)
+         (tk' : task),
+    accepts c n t = true -> init_ok c s0 ->
+    let s' := age t (exec_fault s0 t k f) in
+    init_ok (flags_of tk' s') s'.
+Proof. exact rerun_ready. Qed.
+Print Assumptions C10_state_after_fault_is_restartable.
